@@ -19,6 +19,8 @@ pub mod func;
 pub mod rank_sel;
 pub mod traits;
 pub mod utils;
+#[cfg(sux_verif)]
+pub mod verif_hooks;
 
 #[cfg(feature = "fuzz")]
 pub mod fuzz;
